@@ -102,6 +102,28 @@ pub fn base_image_with(cache_off: bool) -> InMemory {
     .fork()
 }
 
+/// The Schema Lock the base image runs under (profile + status package).
+pub fn full_lock() -> SchemaLock {
+    let mut lock = SchemaLock::default();
+    lock.packages.insert(PROFILE_ID.to_string(), "2.0.0".to_string());
+    lock.states.insert(PROFILE_ID.to_string(), PackageState::Active);
+    lock.packages.insert("kip://conformance/status".to_string(), "1.0.0".to_string());
+    lock.states.insert("kip://conformance/status".to_string(), PackageState::Active);
+    lock
+}
+
+/// Path patterns (hop-quantified walks): forward from a pinned subject,
+/// backward from a pinned object, open-ended, and counted.
+pub fn path_queries() -> Vec<String> {
+    vec![
+        r#"FIND(?b.name) WHERE { ?a CONCEPT {name: "Alice"} (?a, "prefers"{1,3}, ?b) }"#.into(),
+        r#"FIND(?a.name) WHERE { ?c CONCEPT {name: "Bob"} (?a, "prefers"{1,3}, ?c) }"#.into(),
+        r#"FIND(?a.name) WHERE { ?c CONCEPT {name: "Dark"} (?a, "prefers"{1,2}, ?c) }"#.into(),
+        r#"FIND(?a.name, ?b.name) WHERE { (?a, "prefers"{1,2}, ?b) }"#.into(),
+        r#"FIND(COUNT(?b)) WHERE { ?a CONCEPT {name: "Alice"} (?a, "prefers"{1,2}, ?b) }"#.into(),
+    ]
+}
+
 /// Outcome of one command, navigated generically from the serialized response.
 #[derive(Clone, Debug, PartialEq)]
 pub struct Out {
@@ -214,6 +236,14 @@ pub fn battery(known_ids: &[String]) -> Vec<String> {
         r#"DESCRIBE SCHEMA ENVIRONMENT"#.into(),
         r#"SEARCH CONCEPT "Alice""#.into(),
     ];
+    // elements outside ordinary recall are observable by asking for their state
+    for st in ["archived", "tombstoned", "merged", "purged", "pending"] {
+        q.push(format!(r#"FIND(?c.id, ?c.name, ?c.key) WHERE {{ ?c CONCEPT {{state: "{st}"}} }}"#));
+    }
+    for st in ["retracted", "superseded", "archived", "pending"] {
+        q.push(format!(r#"FIND(?a.id) WHERE {{ ?a ASSERTION {{state: "{st}"}} }}"#));
+    }
+    q.extend(path_queries());
     for id in known_ids {
         q.push(format!("HISTORY ELEMENT \"{id}\""));
     }
